@@ -351,6 +351,8 @@ var HonestFeatureTotals = []string{
 }
 
 var RequiredQuick = []string{
+	// round 15
+	"slashing_penalty_in_clamp_band",
 	// round 14: honest features that seeded-defect trials rely on
 	"deneb.att_beyond_epoch_correct_target", "deneb.att_beyond_epoch_wrong_target",
 	"altair.sync_at_first_slot_of_fork", "bellatrix.sync_at_first_slot_of_fork", "capella.sync_at_first_slot_of_fork", "deneb.sync_at_first_slot_of_fork",
